@@ -262,10 +262,10 @@ def float_cases(ctx):
     thorough = ctx.tier == "thorough"
     out = []
     durs = [0, 100, Fr(5, 2), 20, F(0.1), 1000, 7]
-    past = [F(1.0), F(-1.0), F(5.0), -2, 1, -1, F(1.5), F(-1.0000000000000002), F(1.0000000000000002)]
+    past = [F(1.0), F(-1.0), F(5.0), -2, F(1.0000000000000002), F(-1.0000000000000002), 1, -1, F(1.5)]
     for k in range(-100, 101):
         st0 = F(k / 100)
-        for j, t in enumerate(past if thorough else past[:4]):
+        for j, t in enumerate(past if thorough else (past[:4] if k % 5 else past[:6])):
             d = durs[(k + j) % len(durs)]
             out.append(("float-grid-100", ("motor", PINS, [("set_speed", st0), ("ramp", t, d), ("invert",), ("get_applied_speed",)])))
         # the same start reached through backward() / an inverted motor / a ramp, not through set_speed
@@ -280,7 +280,7 @@ def float_cases(ctx):
         for t in (F(1.0), F(-1.0)) + ((F(3.0), -7) if thorough else ()):
             out.append(("float-grid-1000", ("motor", PINS, [("set_speed", st0), ("ramp", t, durs[k % len(durs)]), ("get_speed",)])))
     pool = [F(k / 100) for k in range(-100, 101)] + [F(x) for x in (1 / 3, -2 / 3, 0.1, 0.7, 1e-3, -1e-3, 0.123456789, -0.987654321)]
-    lim = [F(1.0), F(-1.0), 1, -1, F(5.0), F(-5.0), 2, -2]
+    lim = [F(1.0), F(-1.0), 1, -1, F(5.0), F(-5.0), 2, -2, F(1.0000000000000002), F(-1.0000000000000002)]
     for _ in range(3000 if thorough else 300):
         ops = [("invert",)] if rng.random() < 0.3 else []
         ops.append(("set_speed", rng.choice(pool)))
